@@ -6,6 +6,7 @@ import (
 	"math"
 	"os"
 	"path/filepath"
+	"sort"
 	"strings"
 	"testing"
 	"time"
@@ -589,7 +590,7 @@ type c35ChildResult struct {
 	ChildTime time.Duration
 }
 
-func c35RunChild(t *testing.T, root string, c c35Case) c35ChildResult {
+func c35RunChild(t *testing.T, pool *childPool, root string, c c35Case, fresh bool) c35ChildResult {
 	var res c35ChildResult
 	dir := newCaseDir(t, root, "c35c")
 	defer os.RemoveAll(dir)
@@ -600,7 +601,7 @@ func c35RunChild(t *testing.T, root string, c c35Case) c35ChildResult {
 		t.Fatalf("write case: %v", err)
 	}
 	t0 := time.Now()
-	cr, err := runChild("TestChildC35", map[string]string{"VERIF_C35_CASE": cf, "VERIF_C35_OUT": of}, dir, 5*time.Minute)
+	cr, err := pool.Run("C35", cf, of, 6*time.Minute, fresh)
 	res.ChildTime = time.Since(t0)
 	if err != nil {
 		res.Inconcl = "child could not be started: " + err.Error()
@@ -616,7 +617,7 @@ func c35RunChild(t *testing.T, root string, c c35Case) c35ChildResult {
 		return res
 	}
 	if cr.TimedOut || rerr != nil {
-		res.Inconcl = fmt.Sprintf("child gave no report (timeout=%v exit=%d): %s", cr.TimedOut, cr.ExitCode, tail(cr.Stderr, 3000))
+		res.Inconcl = fmt.Sprintf("child gave no report (timeout=%v died=%v): %s", cr.TimedOut, cr.Died, tail(cr.Stderr, 6000))
 		saveInconclusive("C35", res.Inconcl)
 		return res
 	}
@@ -631,21 +632,6 @@ func c35RunChild(t *testing.T, root string, c c35Case) c35ChildResult {
 		}
 	}
 	return res
-}
-
-func tail(s string, n int) string {
-	if len(s) > n {
-		return "…" + s[len(s)-n:]
-	}
-	return s
-}
-
-// saveInconclusive keeps the evidence of a hang / dead child for the lead; it
-// is never a verdict.
-func saveInconclusive(id, txt string) {
-	d := filepath.Join(kit.VerifDir(), "logs")
-	_ = os.MkdirAll(d, 0o755)
-	_ = os.WriteFile(filepath.Join(d, fmt.Sprintf("%s.inconclusive.%d.%d.txt", id, os.Getpid(), caseCounter.Add(1))), []byte(txt), 0o644)
 }
 
 func c35HasConcurrentFlushPotential(c c35Case) bool {
@@ -675,11 +661,14 @@ func TestC35Concurrent(t *testing.T) {
 		t.Fatalf("this sub-check needs the race detector: build with -race")
 	}
 	root := c35WorkRoot(t)
+	pool := newChildPool(root)
+	defer pool.Close()
+	defer func() { s.Extra("child_processes_started", pool.Started) }()
 	_, steer := s.IsKnown(c35FlushRaceSig)
 	s.Extra("steered_away_from_flush_overlap", steer)
 
 	run := func(f kit.Failer, c c35Case) {
-		res := c35RunChild(t, root, c)
+		res := c35RunChild(t, pool, root, c, false)
 		if res.Inconcl != "" {
 			s.AddExtra("inconclusive_runs", 1)
 			s.Note(c, false, "inconclusive")
@@ -762,8 +751,26 @@ func c35KnownCase() c35Case {
 	return c
 }
 
-func TestC35Known_FlushNotSynchronised(t *testing.T) {
-	s := kit.Begin(t, "C35", "known-flush-race", "fixed case: 4 goroutines x 150 InsertData calls into one table (location column), batch size 7, no explicit Flush; up to 5 child runs; reports the listed finding only when it reproduced")
+// c35KnownCase2: one goroutine inserts, another one calls Flush; default batch
+// size, so there is never more than one flush at a time (no transaction
+// nesting): what is left is Flush clearing table.entries behind InsertData.
+func c35KnownCase2() c35Case {
+	tb := c35Table{Name: "t0", Fields: []c35Field{{Kind: "int64"}, {Kind: "int32"}}}
+	c := c35Case{Batch: 0, Procs: 4, Open: "db"}
+	c.Phases = append(c.Phases, c35Phase{Threads: [][]c35Op{{{Op: "create", Table: 0}}}})
+	var ins, fl []c35Op
+	for i := 0; i < 600; i++ {
+		tb.Rows = append(tb.Rows, []c35Val{{I: int64(i)}, {I: 1}})
+		ins = append(ins, c35Op{Op: "insert", Table: 0, Row: i})
+		fl = append(fl, c35Op{Op: "flush"})
+	}
+	c.Phases = append(c.Phases, c35Phase{Threads: [][]c35Op{ins, fl}})
+	c.Tables = []c35Table{tb}
+	return c
+}
+
+func c35Known(t *testing.T, sub, what string, c c35Case, attempts int) {
+	s := kit.Begin(t, "C35", sub, "fixed case: "+what+fmt.Sprintf("; up to %d child runs; reports a listed finding only when it reproduced", attempts))
 	defer s.End()
 	if kit.ReplayMode() {
 		t.Skip()
@@ -772,9 +779,10 @@ func TestC35Known_FlushNotSynchronised(t *testing.T) {
 		t.Skip("needs -race")
 	}
 	root := c35WorkRoot(t)
-	c := c35KnownCase()
-	for attempt := 0; attempt < 5; attempt++ {
-		res := c35RunChild(t, root, c)
+	pool := newChildPool(root)
+	defer pool.Close()
+	for attempt := 0; attempt < attempts; attempt++ {
+		res := c35RunChild(t, pool, root, c, true)
 		if res.Inconcl != "" {
 			continue
 		}
@@ -793,11 +801,24 @@ func TestC35Known_FlushNotSynchronised(t *testing.T) {
 		if len(seen) == 0 {
 			continue
 		}
-		for sig, what := range seen {
-			s.KnownStillFails(t, c, sig, fmt.Sprintf("4 goroutines x 150 InsertData, batch 7 (attempt %d): %s", attempt+1, what))
+		sigs := make([]string, 0, len(seen))
+		for sig := range seen {
+			sigs = append(sigs, sig)
+		}
+		sort.Strings(sigs)
+		for _, sig := range sigs {
+			s.KnownStillFails(t, c, sig, fmt.Sprintf("%s (attempt %d): %s", what, attempt+1, seen[sig]))
 		}
 		return
 	}
+}
+
+func TestC35Known_ThresholdFlushFromSeveralGoroutines(t *testing.T) {
+	c35Known(t, "known-threshold-flush", "4 goroutines x 150 InsertData into one table (location column), batch size 7, no explicit Flush", c35KnownCase(), 5)
+}
+
+func TestC35Known_FlushDropsConcurrentInsert(t *testing.T) {
+	c35Known(t, "known-flush-vs-insert", "1 goroutine x 600 InsertData, 1 goroutine x 600 Flush, default batch size", c35KnownCase2(), 5)
 }
 
 // ---- sub-check 3: classes the storage layer may be unable to carry ------------------------------
